@@ -238,10 +238,162 @@ def task_square_loop():
     return col.pack()
 
 
+# ------------------------------------------------------------------ dipole <-> point conversions
+class Cplx(cx.Ext):
+    """re + i im with real z3 parts (only what dipole_to_point needs)"""
+
+    def __init__(self, re, im):
+        self.re, self.im = re, im
+
+    def cx_binop(self, it, op, other, reflected):
+        import ast as _ast
+        if isinstance(op, _ast.Add) and (cx.is_sym(other) or isinstance(other, (int, float))):
+            return Cplx(self.re + cx.R(other), self.im)
+        return NotImplemented
+
+
+class Electrodes(cx.Ext):
+    """(2, 3) array of the two electrodes: .T, np.diff(.T).squeeze() == second - first"""
+
+    def __init__(self, e0, e1, transposed=False):
+        self.e0, self.e1, self.transposed = e0, e1, transposed
+
+    def cx_getattr(self, it, attr):
+        if attr == 'T':
+            return Electrodes(self.e0, self.e1, not self.transposed)
+        return NotImplemented
+
+
+def task_conversions():
+    """electrodes.point_to_dipole / dipole_to_point and the round trip (lemma over the two contracts and the contract of np.angle / np.linalg.norm):
+       point_to_dipole(c, az, el, L)   = c -/+ (L/2) rotation(az, el)
+       dipole_to_point(e0, e1)         = (angle(dx + i dy), angle(sqrt(dx^2+dy^2) + i dz), |(dx, dy, dz)|),  (dx, dy, dz) = e1 - e0
+       round trip: electrodes -> (centre, az, el, L) -> electrodes gives the same electrodes."""
+    from .cxutil import UNRECOGNISED
+    col = ob.Collector(PROP, 'electrodes.conversions')
+    col.default_replay = replay
+    col.function('electrodes.point_to_dipole')
+    col.function('electrodes.dipole_to_point')
+    AZ, EL, LEN = z3.Reals('azimuth elevation length')
+    CA, SA, CE, SE = z3.Reals('cos_az sin_az cos_el sin_el')
+    C = z3.Reals('cx cy cz')
+    E0, E1 = z3.Reals('e0x e0y e0z'), z3.Reals('e1x e1y e1z')
+
+    def rotation(it, args, kw, node):
+        if not (cx.is_sym(args[0]) and args[0].eq(AZ) and cx.is_sym(args[1]) and args[1].eq(EL)):
+            raise cx.Unsupported('rotation() not called with the point\'s azimuth and elevation')
+        it.ctx.event('rotation', kwargs=dict(kw))
+        return cx.Vec([CA * CE, SA * CE, SE])
+
+    def nparray(it, f, args, kw, node):
+        v = args[0]
+        if isinstance(v, (list, tuple)) and len(v) == 2 and all(isinstance(x, cx.Vec) for x in v):
+            from_rows = Mat(v)
+            return from_rows
+        raise cx.Unsupported('np.array form')
+
+    def mk(ctx):
+        ctx.opts.setdefault('prelude', {}).update({'np.array': nparray})
+        return [cx.Vec(list(C) + [AZ, EL]), LEN], {}, {}
+    res = cx.run_function('electrodes.point_to_dipole', mk, pc0=[], summaries={'electrodes.rotation': rotation}, opts={})
+
+    def p2d(r):
+        if r.outcome != 'return' or not isinstance(r.value, Mat) or len(r.value.rows) != 2:
+            return UNRECOGNISED('point_to_dipole does not return a (2, 3) array built from two 3-vectors')
+        d = [CA * CE, SA * CE, SE]
+        return z3.And(*[cx.R(r.value.rows[0][k]) == C[k] - LEN / 2 * d[k] for k in range(3)] + [cx.R(r.value.rows[1][k]) == C[k] + LEN / 2 * d[k] for k in range(3)])
+    clause(col, 'point_to_dipole_puts_half_the_length_on_each_side_of_the_centre_along_the_direction', res, p2d, sample=True)
+
+    # dipole_to_point
+    log = []
+
+    def diff(it, f, args, kw, node):
+        v = args[0]
+        if isinstance(v, Electrodes) and v.transposed:
+            o = cx.Obj('DiffResult', dict(vec=cx.Vec([v.e1[k] - v.e0[k] for k in range(3)])))
+            return o
+        raise cx.Unsupported('np.diff form')
+
+    def norm(it, f, args, kw, node):
+        log.append(('norm', list(args[0])))
+        return z3.Real('NORM')
+
+    def sqrt(it, f, args, kw, node):
+        log.append(('sqrt', args[0]))
+        return z3.Real('RXY')
+
+    def angle(it, f, args, kw, node):
+        z = args[0]
+        if not isinstance(z, Cplx):
+            raise cx.Unsupported('np.angle of something that is not re + 1j*im')
+        k = sum(1 for x in log if x[0] == 'angle')
+        log.append(('angle', z.re, z.im, dict(kw)))
+        return z3.Real(f'ANGLE{k}')
+
+    def mk2(ctx):
+        del log[:]
+        ctx.opts.setdefault('prelude', {}).update({'np.diff': diff, 'np.linalg.norm': norm, 'np.sqrt': sqrt, 'np.angle': angle})
+        return [Electrodes(list(E0), list(E1))], {}, {}
+    orig_binop, orig_call = cx.Interp.binop, cx.Interp.call
+
+    def binop(self, op, a, b, node=None):
+        import ast as _ast
+        if isinstance(a, complex) and a.real == 0 and cx.is_sym(b) and isinstance(op, _ast.Mult):
+            return Cplx(z3.RealVal(0), a.imag * b if a.imag != 1 else b)
+        return orig_binop(self, op, a, b, node)
+
+    def call(self, f, args, kwargs, node=None):
+        if isinstance(f, cx.Opaque) and f.tag.endswith('.squeeze'):
+            pass
+        return orig_call(self, f, args, kwargs, node)
+
+    def getattr_hook(it, v, attr):
+        if v.cls == 'DiffResult' and attr == 'squeeze':
+            return cx.LibFn('diffresult.squeeze', bound=v)
+        return NotImplemented
+    cx.Interp.binop = binop
+    try:
+        res2 = cx.run_function('electrodes.dipole_to_point', mk2, pc0=[], summaries={},
+                               opts=dict(getattr_hook=getattr_hook, prelude={'diffresult.squeeze': lambda it, f, a, k, n: f.bound.fields['vec']}))
+        log2 = list(log)
+    finally:
+        cx.Interp.binop = orig_binop
+    d = [E1[k] - E0[k] for k in range(3)]
+
+    def d2p(r):
+        if r.outcome != 'return' or not (isinstance(r.value, tuple) and len(r.value) == 3):
+            return UNRECOGNISED('dipole_to_point does not return (azimuth, elevation, length)')
+        ang = [x for x in log2 if x[0] == 'angle']
+        nrm = [x for x in log2 if x[0] == 'norm']
+        sq = [x for x in log2 if x[0] == 'sqrt']
+        if len(ang) != 2 or len(nrm) != 1 or len(sq) != 1:
+            return UNRECOGNISED('angles are not obtained by two np.angle calls, the length by one np.linalg.norm call')
+        az, el, ln = r.value
+        ok = cx.is_sym(az) and az.eq(z3.Real('ANGLE0')) and cx.is_sym(el) and el.eq(z3.Real('ANGLE1')) and cx.is_sym(ln) and ln.eq(z3.Real('NORM'))
+        if not ok or len(nrm[0][1]) != 3:
+            return False
+        return z3.And(ang[0][1] == d[0], ang[0][2] == d[1], ang[1][1] == z3.Real('RXY'), ang[1][2] == d[2], cx.R(sq[0][1]) == d[0] * d[0] + d[1] * d[1],
+                      *[cx.R(nrm[0][1][k]) == d[k] for k in range(3)])
+    clause(col, 'dipole_to_point_is_angle_of_dx_dy__angle_of_rxy_dz__norm_of_the_electrode_difference', res2, d2p, sample=True)
+    # round trip: dependency contracts  sqrt: RXY >= 0, RXY^2 = dx^2+dy^2;  norm: L >= 0, L^2 = dx^2+dy^2+dz^2;
+    #             angle(re + i im): cos * r = re, sin * r = im with r = |re + i im|  (also for r = 0, where the angle is 0)
+    RXY, L = z3.Reals('RXY NORM')
+    contracts = [RXY >= 0, RXY * RXY == d[0] * d[0] + d[1] * d[1], L >= 0, L * L == RXY * RXY + d[2] * d[2],
+                 CA * RXY == d[0], SA * RXY == d[1], CE * L == RXY, SE * L == d[2]]
+    mid = [(E0[k] + E1[k]) / 2 for k in range(3)]
+    dirn = [CA * CE, SA * CE, SE]
+    col.lia('round_trip_electrodes_to_point_form_and_back_returns_the_same_electrodes', contracts,
+            z3.And(*[mid[k] - L / 2 * dirn[k] == E0[k] for k in range(3)] + [mid[k] + L / 2 * dirn[k] == E1[k] for k in range(3)]), sample=True)
+    col.canary_lia('canary/round_trip_with_swapped_electrodes', contracts + [d[0] != 0],
+                   z3.And(*[mid[k] + L / 2 * dirn[k] == E0[k] for k in range(3)]))
+    col.satisfiable('angle_norm_contracts_satisfiable', contracts + [d[0] == 3, d[1] == 4, d[2] == 12])
+    return col.pack()
+
+
 def tasks(tier):
     return [('contracts.c0910', 'task_point_source', dict(prop='C10')), ('contracts.c0910', 'task_rotation', dict(prop='C10')),
             ('contracts.c0910', 'task_dipole_cell', {}), ('contracts.c10', 'task_get_source_field', {}), ('contracts.c10', 'task_wire_branch', {}),
-            ('contracts.c10', 'task_square_loop', {}), ('contracts.c10', 'task_concrete', {})]
+            ('contracts.c10', 'task_square_loop', {}), ('contracts.c10', 'task_conversions', {}), ('contracts.c10', 'task_concrete', {})]
 
 
 LEVEL = ('Proof over the real source: point-source weights sum to one in every branch; the per-cell contribution of a dipole segment distributes exactly the '
